@@ -20,6 +20,7 @@ from adaptix.load_error import (
     ExtraItemsLoadError,
     LoadError,
     NoRequiredFieldsLoadError,
+    NoRequiredItemsLoadError,
     UnionLoadError,
 )
 from adaptix.struct_trail import ItemKey, get_trail
@@ -43,7 +44,7 @@ META = {
     "bound": {"quick": "depth <= 3, antichains of <= 3 faults", "thorough": "depth <= 3 plus a third of depth 4, antichains of <= 4 faults"},
 }
 
-LAYOUTS = ("plain", "renamed", "flat", "aslist")
+LAYOUTS = ("plain", "renamed", "flat", "aslist", "flatlist")
 _CLS_CACHE = {}
 
 
@@ -95,6 +96,7 @@ def model_keys(lay):
         "renamed": (("K one",), ("f2",)),
         "flat": (("n", "x"), ("f2",)),
         "aslist": ((0,), (1,)),
+        "flatlist": (("point", 0), ("point", 1)),
     }[lay]
 
 
@@ -130,6 +132,8 @@ def build(ts, recipe):
             kw["map"] = {"f1": ("n", "x")}
         elif lay == "aslist":
             kw["as_list"] = True
+        elif lay == "flatlist":
+            kw["map"] = {"f1": ("point", 0), "f2": ("point", 1)}
         recipe.append(name_mapping(cls, **kw))
         return cls
     raise ValueError(ts)
@@ -155,6 +159,8 @@ def valid(ts, salt=0):
         p1, p2 = model_keys(ts[1])
         if ts[1] == "aslist":
             return [valid(ts[2], 0), valid(ts[3], 1)]
+        if ts[1] == "flatlist":
+            return {"point": [valid(ts[2], 0), valid(ts[3], 1)]}
         root = {}
         for p, v in ((p1, valid(ts[2], 0)), (p2, valid(ts[3], 1))):
             node = root
@@ -168,10 +174,11 @@ def valid(ts, salt=0):
 class Fault:
     """one plantable fault: where (trail of the position), the error it must produce (trail, kind), how to plant it, and
     the container trails it kills (faults below those are not independent)"""
-    __slots__ = ("name", "pos", "err_trail", "err_kind", "plant", "kills", "under_optional", "merge_key")
+    __slots__ = ("name", "pos", "err_trail", "err_kind", "plant", "kills", "under_optional", "merge_key", "more_errs")
 
-    def __init__(self, name, pos, err_trail, err_kind, plant, kills=None, merge_key=None):
+    def __init__(self, name, pos, err_trail, err_kind, plant, kills=None, merge_key=None, more_errs=()):
         self.name, self.pos, self.err_trail, self.err_kind, self.plant = name, pos, err_trail, err_kind, plant
+        self.more_errs = tuple(more_errs)   # further (trail, kind) pairs the same plant produces (key AND value of one entry)
         self.kills = kills          # trail prefix below which nothing else may be planted (None: only the position itself)
         self.under_optional = None
         self.merge_key = merge_key  # faults with equal merge_key are reported as ONE error (missing keys of one node)
@@ -214,6 +221,18 @@ def faults(ts, at=()):  # noqa: C901
             node["bad"] = node.pop(2)
         # the key "bad" is rejected by the int key loader: error at [..., ItemKey("bad")]; the value under it is still loaded
         out.append(Fault("bad_key", (*at, 2), (*at, ItemKey("bad")), "type", plant_key, kills=(*at, 2)))
+        # key and value of ONE entry both invalid: two independent leaves, both must be reported (value trail goes through the
+        # original key "bad")
+        sub = faults(ts[1], (*at, "bad"))
+        if sub and sub[0].kills is None and sub[0].merge_key is None:
+            first = sub[0]
+
+            def plant_both(root, at=at, first=first):
+                node = _get(root, at) if at else root
+                node["bad"] = node.pop(2)
+                first.plant(root)
+            out.append(Fault("bad_key+value", (*at, 2), (*at, ItemKey("bad")), "type", plant_both, kills=(*at, 2),
+                             more_errs=[(first.err_trail, first.err_kind)]))
     elif h == "Optional":
         sub = faults(ts[1], at)
         for f in sub:
@@ -231,7 +250,24 @@ def faults(ts, at=()):  # noqa: C901
         p1, p2 = model_keys(lay)
         out += faults(ts[2], (*at, *p1))
         out += faults(ts[3], (*at, *p2))
-        if lay != "aslist":
+        if lay == "flatlist":
+            def plant_short(root, at=at):
+                (_get(root, (*at, "point"))).pop()
+            out.append(Fault("nested_list_too_short", (*at, "point", "\0len"), (*at, "point"), "missing_items", plant_short, kills=(*at, "point", 1)))
+
+            def plant_long_n(root, at=at):
+                (_get(root, (*at, "point"))).append("extra-item")
+            out.append(Fault("nested_list_too_long", (*at, "point", "\0len"), (*at, "point"), "extra_items", plant_long_n))
+
+            def plant_missing_point(root, at=at):
+                del (_get(root, at) if at else root)["point"]
+            out.append(Fault("missing:point", (*at, "point"), at, "missing", plant_missing_point, kills=(*at, "point"),
+                             merge_key=("missing", at)))
+
+            def plant_extra_fl(root, at=at):
+                (_get(root, at) if at else root)["unknown"] = 1
+            out.append(Fault("extra_key", (*at, "\0extra"), at, "extra_fields", plant_extra_fl))
+        elif lay != "aslist":
             for p in (p1, p2):
                 node_trail = (*at, *p[:-1])
 
@@ -279,6 +315,8 @@ def expected_errors(fs):
             out.add((tuple(f.under_optional), "union"))
         else:
             out.add((tuple(f.err_trail), f.err_kind))
+            for t, k in f.more_errs:
+                out.add((tuple(t), k))
     return out
 
 
@@ -301,6 +339,8 @@ def kind_of(e):
         return "extra_fields"
     if isinstance(e, ExtraItemsLoadError):
         return "extra_items"
+    if isinstance(e, NoRequiredItemsLoadError):
+        return "missing_items"
     return "type"
 
 
